@@ -925,3 +925,7 @@ n('C14', 'Model._init_parameter: copy through .copy()', MODELS,
 m('C12', 'layered setter keeps the computed state (defect F24)', SIMS,
   "        if layered != self._layered:\n            # Computed data belong to the other mode; remove them.\n            self.clean('computed')\n",
   "", 'C12.OW3.mode')
+m('C20', '_check_time: checked times discarded (defect F25)', TIME,
+  "        time, freq, ft, ftarg = empymod.utils.check_time(\n                np.array(self._time, dtype=float), self.signal, self.ft,\n                self.ftarg, self.verb)",
+  "        _, freq, ft, ftarg = empymod.utils.check_time(\n                self.time, self.signal, self.ft,\n                self.ftarg, self.verb)\n        time = self._time",
+  'C20.F4.handover')
